@@ -219,11 +219,37 @@ def patchDynamics (l : Labels) (bufOffset bufAddr : Nat) :
       | .impossible => (buf, m, .err (.impossible (.dyn id)))
       | .ok buf' => patchDynamics l bufOffset bufAddr rest buf' (if p.needsAdjustment then m ++ [p] else m)
 
+/-- what is still registered when the static loop stops early: the reference that could not be resolved or patched and every
+reference behind it (they are put back; `[]` when the loop ran to its end) -/
+def staticsRest (l : Labels) (bufOffset bufAddr : Nat) :
+    List (PatchLoc × Nat × Nat) → List Byte → List (PatchLoc × Nat × Nat)
+  | [], _ => []
+  | (p, name, ver) :: rest, buf =>
+    match l.resolveStatic name ver with
+    | .error _ => (p, name, ver) :: rest
+    | .ok target =>
+      match p.patch buf bufOffset bufAddr target with
+      | .ok buf' => staticsRest l bufOffset bufAddr rest buf'
+      | _ => (p, name, ver) :: rest
+
+def dynamicsRest (l : Labels) (bufOffset bufAddr : Nat) :
+    List (PatchLoc × Nat) → List Byte → List (PatchLoc × Nat)
+  | [], _ => []
+  | (p, id) :: rest, buf =>
+    match l.resolveDynamic id with
+    | .error _ => (p, id) :: rest
+    | .ok target =>
+      match p.patch buf bufOffset bufAddr target with
+      | .ok buf' => dynamicsRest l bufOffset bufAddr rest buf'
+      | _ => (p, id) :: rest
+
 /-- `encode_relocs` of all three front-ends: error slot first, then statics, then dynamics.
-`VecAssembler::commit` and `Assembler::encode_relocs` iterate `Vec::drain(..)` directly: the static list is emptied even
-on an early return, the dynamic list only once it is reached, and nothing is drained when the error slot fires
-(`drainAll = false`). `Modifier::encode_relocs` takes both lists out of the shared registry before anything else
-(`drainAll = true`), because its patch locations are only meaningful for the committed buffer. -/
+`VecAssembler::commit` and `Assembler::encode_relocs` (`drainAll = false`): a reference that cannot be resolved or does not fit
+ends the loop with its error and STAYS registered together with every reference behind it (the ones in front of it are patched
+and gone), so that a later commit attempts them again instead of publishing their fields unpatched; the dynamic list is only
+touched once the static loop has succeeded; nothing is touched when the error slot fires.
+`Modifier::encode_relocs` takes both lists out of the shared registry before anything else (`drainAll = true`), because its
+patch locations are only meaningful for the committed buffer. -/
 def Core.encodeRelocs (c : Core) (buf : List Byte) (bufOffset bufAddr : Nat) (drainAll : Bool := false) :
     Core × List Byte × List PatchLoc × Out :=
   match c.error with
@@ -233,9 +259,11 @@ def Core.encodeRelocs (c : Core) (buf : List Byte) (bufOffset bufAddr : Nat) (dr
     match patchStatics c.labels bufOffset bufAddr c.statics buf [] with
     | (buf1, m1, .ok) =>
       let (buf2, m2, o) := patchDynamics c.labels bufOffset bufAddr c.dynamics buf1 m1
-      ({ c with statics := [], dynamics := [] }, buf2, m2, o)
+      ({ c with statics := [],
+                dynamics := if drainAll then [] else dynamicsRest c.labels bufOffset bufAddr c.dynamics buf1 }, buf2, m2, o)
     | (buf1, m1, o) =>
-      (if drainAll then { c with statics := [], dynamics := [] } else { c with statics := [] }, buf1, m1, o)
+      (if drainAll then { c with statics := [], dynamics := [] }
+       else { c with statics := staticsRest c.labels bufOffset bufAddr c.statics buf }, buf1, m1, o)
 
 /-! ## alignment and little-endian pushes (all five `align` implementations compute the same padding) -/
 
